@@ -462,7 +462,9 @@ func expandGlob(root, pattern string) ([]string, error) {
 	var matches []string
 	ignoreHiddenGlobFn := func(path string, d fs.DirEntry) error {
 		if strings.HasPrefix(path, ".") {
-			return filepath.SkipDir
+			// Hidden, leave it out but carry on. Returning SkipDir here would also abandon
+			// every other entry of the directory being listed, hidden or not
+			return nil
 		}
 
 		abs, err := filepath.Abs(filepath.Join(root, path))
